@@ -27,8 +27,8 @@ CLAIMED["C04"] = ("Theorems: add uses the largest at-ratio deposit that fits, mi
 CLAIMED["C05"] = ("Inductive invariants for every reachable state of three models: dex/farm (Model/Farm.v), farm-with-locked-rewards (Model/FarmLocked.v, refines the farm model; rewards leave only as locked tokens) and farm-staking at position level (Model/StakingPos.v): "
     "reserve = generated - paid, reward balance = reserve + donations (minting farm), farming tokens held = farm-token supply = sum of outstanding positions, DSC*(reserve - boosted pools) >= un-floored claimable base rewards of all positions "
     "(solvency, uses the ceil-merge lemma) and its floor form, principal backed, no legitimate operation fails on a negative counter (C05_staking_d_no_spurious_failure). "
-    "In the CLOSED model of dex/farm (Props/C05_closed.v: Farm x Boosted, the boosted payout is computed, not an input) the farm's boosted pool equals the sum of the weekly pools + undistributed, the reserve covers claims plus those actual pools, and the computed payout is always payable. Props/C05_total.v: on every reachable state of the farm model and of the closed model an operation fails IF AND ONLY IF a documented guard fails (no counter, debit, division or lookup can abort a legitimate call). "
-    "Tied to the three real contracts by differential replay; the repaired defects F1/F4 stay as regression histories.", "34 C05", "Coq inductive invariants (accounting, ledger, solvency, refinement between models) + correspondence")
+    "In the CLOSED model of dex/farm (Props/C05_closed.v: Farm x Boosted, the boosted payout is computed, not an input) the farm's boosted pool equals the sum of the weekly pools + undistributed, the reserve covers claims plus those actual pools, and the computed payout is always payable. Props/C05_staking_closed.v: the same closed construction for farm-staking (link invariant, payout payable before the slice, fails-iff-guard-fails). Props/C05_total.v: on every reachable state of the farm model and of the closed model an operation fails IF AND ONLY IF a documented guard fails (no counter, debit, division or lookup can abort a legitimate call). "
+    "Tied to the three real contracts by differential replay; the repaired defects F1/F4 stay as regression histories.", "46 C05", "Coq inductive invariants (accounting, ledger, solvency, refinement between models) + correspondence")
 CLAIMED["C06"] = ("Theorems: settlement grows the index by exactly floor((rate*blocks - boosted cut)*DSC/supply) and never otherwise; index monotone; claim pays floor(amount*(RPS_now-RPS_entry)/DSC) + boosted; "
     "a new position records the index settled to its own block (not retroactive); base paid <= base generated over every history; admin changes settle with the old parameters first.", "7 C06",
     "Coq characterisation theorems + reachability invariant + correspondence")
@@ -59,10 +59,10 @@ CLAIMED["C10"] = ("18 theorems on the generic weekly-rewards-splitting model ins
     "over any history; totals frozen once by a claim; deposits claimable from the next week; the expiry-bucket invariant and total_energy(week) = sum of users' decayed energies (safe_sub never saturates); "
     "sum paid <= deposited per week and token; the collector's balance covers the claimable window; permitted claims never abort. Tied to fees-collector + energy mock by differential replay.", "7 C10",
     "Coq inductive invariants (bucket bookkeeping refinement) + ghost-ledger history theorem + correspondence")
-CLAIMED["C12"] = ("Inductive invariant of the staking money-flow model for every history: accrued <= capacity; staking-token balance = direct principal + outstanding unbond amounts + un-accrued capacity + reserve (+ donations); "
+CLAIMED["C12"] = ("16 theorems. Inductive invariant of the staking money-flow model for every history: accrued <= capacity; staking-token balance = direct principal + outstanding unbond amounts + un-accrued capacity + reserve (+ donations); "
     "per-settlement accrual bounded by supply*APR/(10000*blocks_per_year) per block (cross-multiplied), by the rate, by capacity; unbond tokens unlock exactly min_unbond epochs after unstake, the epoch never changes, "
     "unbond never succeeds earlier and pays the token amount once; admin withdrawal bounded by un-accrued capacity after settling. Reward amounts and position payments are inputs guarded by the same counters as the code. "
-    "Tied to farm-staking by differential replay incl. proxy (virtual) stakes.", "7 C12", "Coq inductive invariant + characterisation theorems + correspondence")
+    "In the CLOSED staking model (Props/C12_closed.v: StakingPos x boosted module, payouts computed) the same invariant holds on every reachable state and the balance identity is itemised with the actual weekly boosted pools. Tied to farm-staking by differential replay incl. proxy (virtual) stakes.", "16 C12", "Coq inductive invariant + characterisation theorems + correspondence")
 CLAIMED["C14"] = ("23 theorems on the router model (registry + world of Model.Pair contracts + ledger) for every reachable world: one pair per unordered token pair, order-insensitive exact lookup, listed pairs distinct and consistent; "
     "createPair guard set and effect, removePair; management endpoints, upgrade, user-enabled swaps and every multiPairSwap hop act only on registered pairs and an unregistered hop fails the call; "
     "multi-hop ledger: router delta 0 for every token, caller delta = -input + payments, each hop is exactly Pair.step on that pair alone (C03 formulas apply), any failing hop fails all, failed step leaves the world unchanged. "
@@ -81,11 +81,11 @@ CLAIMED["C16"] = ("52 theorems on the proxy_dex model (pair, farms and energy fa
     "base minted on entry = base + locked burned on exit; energy drops by exactly burned*(unlock - now) incl. expired locks; into_part = floor share, aborts on zero, parts never sum past the whole. "
     "Tied to the real pair + two farm-with-locked-rewards + energy factory + proxy_dex by differential replay.", "52 C16",
     "Coq inductive invariant + characterisation theorems relative to stated callee laws + correspondence")
-CLAIMED["C11"] = ("57 theorems: 26 on the boosted-yields model (farm-boosted-yields on top of the generic weekly-rewards-splitting model; farm-level facts - emission, supply, user position, energy entry - are operation inputs read from the real farm): "
+CLAIMED["C11"] = ("66 theorems: 26 on the boosted-yields model (farm-boosted-yields on top of the generic weekly-rewards-splitting model; farm-level facts - emission, supply, user position, energy entry - are operation inputs read from the real farm): "
     "invariant with ghost ledger for every reachable state; per processed week the payment is exactly min(maxF*R*f/F, (R*cE*e/E + R*cF*f/F)/(cE+cF)) with floor divisions and cross-multiplied bounds against the rational formula, 0 below the minimums / with E, F or R = 0; "
     "claim range = last four completed weeks from the progress week on; (user, week) pairs pairwise distinct over any history; per week cuts = accumulated + remaining + paid + swept, paid <= cuts, frozen total never changes; slice = full*pct/10000 into the running week only; "
-    "collectUndistributed sweeps exactly weeks (last, current-5] once, never inside the window, admin only; every leftover ends in undistributed; 5-slot factor register refines week -> factors of the last accepted call; every accepted configuration has cE + cF > 0 and the formula never divides by zero in any reachable state (after the F7 repair); conservation; and 7 on the CLOSED dex/farm model (Props/C11_closed.v): for every completed week paid + the unguarded amounts of all still-pending users <= the pool (C11_no_underflow), so the guard on remaining(week) never fires and no endpoint aborts in the module half; 24 in Props/C11_hosts.v: the same statements for the calling patterns of farm-with-locked-rewards (enterFarm re-reads the energy after lockVirtual) and farm-staking. "
-    "Tied to dex/farm + energy-factory-mock, farm-with-locked-rewards + real energy factory, and farm-staking by differential replay of all boosted views; monitors recompute the formula with the user's position BEFORE the operation.", "57 C11",
+    "collectUndistributed sweeps exactly weeks (last, current-5] once, never inside the window, admin only; every leftover ends in undistributed; 5-slot factor register refines week -> factors of the last accepted call; every accepted configuration has cE + cF > 0 and the formula never divides by zero in any reachable state (after the F7 repair); conservation; and 7 on the CLOSED dex/farm model (Props/C11_closed.v): for every completed week paid + the unguarded amounts of all still-pending users <= the pool (C11_no_underflow), so the guard on remaining(week) never fires and no endpoint aborts in the module half; 9 in Props/C11_staking_closed.v (C11_staking_no_underflow on the closed staking model); 24 in Props/C11_hosts.v: the same statements for the calling patterns of farm-with-locked-rewards (enterFarm re-reads the energy after lockVirtual) and farm-staking. "
+    "Tied to dex/farm + energy-factory-mock, farm-with-locked-rewards + real energy factory, and farm-staking by differential replay of all boosted views; monitors recompute the formula with the user's position BEFORE the operation.", "66 C11",
     "Coq inductive invariant with ghost ledger + characterisation/refinement theorems + correspondence")
 CLAIMED["C20"] = ("21 theorems: each view defined on the existing models (pair, farm, staking, penalty, price discovery) equals what the corresponding operation delivers in the same state, for all states satisfying the model invariants and all arguments: "
     "getAmountOut/getAmountIn vs both swap modes (quote = delivered / charged, refund = max - quote; view refuses => swap fails; liveness without fee destinations), getTokensForGivenPosition vs removeLiquidity (iff characterisation of the extra guards), "
